@@ -1663,6 +1663,13 @@ class C09(Prop):
             "decrypt calls (counting allocator, driver op c09mem) on chunk-hook / key / password files whose length field at "
             "the first or a later record announces cs+1 .. 2^28 (thorough 2^32-1), cut behind the header or not, must not "
             "exceed the peak for legal length fields (+4 KiB) nor one chunk buffer (+ scrypt's 32 MiB); "
+            "forged locked private keys (every value of version byte 3, swept values of bytes 0..2 incl. 0x30..0x3f / 0xff, whole version "
+            "fields, 17 lengths, 9 base64 misspellings) as the argument of key extract-pub / key change-pass and as PrivateKey of the keyring "
+            "section used by decrypt -t / encrypt -f, each process under RLIMIT_CPU 20 s / RLIMIT_AS 1 GiB: exit 1 with an Error: line, no "
+            "signal, CPU time and peak resident memory (wait4) no more than the genuine key with a wrong password costs (3x + 1 s, + 8 MiB); "
+            "keyring LOCATIONS (~ forms incl. ~ + multi-byte character, empty, -, ., directories, trailing slashes, 255/256-byte components, "
+            "paths of 4 KiB..70 KiB, non-UTF-8 bytes, control characters) via -k / --keyring= / KESTREL_KEYRING with HOME set / unset / empty / "
+            "dangling / relative: exit 1 with an Error: line unless the location is a usable keyring (tools/props_kvs.py); "
             "non-trivial = all but the empty input")
     assumptions = ["termination of the real process is observed with a watchdog, not proved",
                    "the keyring surface is covered by C17; the argv surface by the parse correspondence appended here "
@@ -1822,11 +1829,14 @@ class C09(Prop):
         import props_cli
         if os.path.exists(vlib.CLIDRV):
             props_cli.parse_correspondence(ctx)
+            # forged locked private keys under CPU / address-space limits; keyring locations of every shape (tools/props_kvs.py)
+            import props_kvs
+            props_kvs.c09_cli_hostile(ctx)
         else:
             ctx.broken.append({"kind": "correspondence", "what": "clidrv was not built: argv half of C09 not checked"})
 
     def replay(self, ctx, payload):
-        if payload.get("input", {}).get("op") == "parse":
+        if payload.get("input", {}).get("op") == "parse" or payload.get("input", {}).get("kind") == "proc":
             import props_cli
             return props_cli.k_replay(ctx, payload)
         if payload.get("input", {}).get("op") == "c09mem":
